@@ -101,6 +101,28 @@ def run_workers(jobs, workdir, wall_budget):
     return results
 
 
+def _sample_args(H, split, seed):
+    """a concrete argument vector inside the bounds that satisfies the (split-specific) precondition, or None"""
+    import itertools
+    import random
+    rnd = random.Random(seed * 7919 + len(json.dumps(split, default=repr)))
+    names = H.arg_names()
+    pre = H.pre_text() + ((' and (' + split['_pre'] + ')') if isinstance(split, dict) and split.get('_pre') else '')
+
+    def candidates():
+        yield [(p[2] if p[1] == 'int' else (False if p[1] == 'bool' else None)) for p in H.params]
+        yield [(p[3] if p[1] == 'int' else (True if p[1] == 'bool' else True)) for p in H.params]
+        for _ in range(200):
+            yield [(rnd.randint(p[2], p[3]) if p[1] == 'int' else (rnd.random() < 0.5 if p[1] == 'bool' else rnd.choice([None, True, False]))) for p in H.params]
+    for cand in candidates():
+        try:
+            if eval(pre, {}, dict(zip(names, cand))):
+                return cand
+        except Exception:
+            return None
+    return None
+
+
 def chunk(seq, n):
     return [seq[i:i + n] for i in range(0, len(seq), n)]
 
@@ -238,6 +260,32 @@ def check_property(pid, tier, seed):
                 violations.append({'replay': rp, 'harness': name, 'split': split, 'args': args, 'detail': nr.get('detail')})
             else:
                 machinery.append(('counterexample does not reproduce natively', {'harness': name, 'split': split, 'args': args, 'native': nr, 'msgs': r.get('messages')}))
+        # 4b. native validation of sample inputs: concrete argument vectors that satisfy the precondition are executed WITHOUT
+        #     the tracer (real codec, real Config/Builder); they must agree with the symbolic verdict, and they are the
+        #     evidence samples (documents, expected and observed values as the harness noted them)
+        native_samples = []
+        validated = 0
+        if not refuted and not machinery:
+            for name, H in hmod.HARNESSES.items():
+                splits = H.splits(tier)
+                picks = [splits[i] for i in sorted(set([0, len(splits) // 2, len(splits) - 1]))] if splits else []
+                for split in picks:
+                    args = _sample_args(H, split, seed)
+                    if args is None:
+                        continue
+                    nr = native(module, name, split, args, timeout=meta.get('replay_timeout', 60))
+                    if nr.get('ok') is True:
+                        validated += 1
+                        if len(native_samples) < 6:
+                            native_samples.append({'harness': name, 'split': split, 'args': args, 'native_detail': nr.get('detail')})
+                    elif nr.get('ok') is False:
+                        body = {'property': pid, 'module': module, 'harness': name, 'split': split, 'args': args, 'crosshair': 'sample validation', 'native': nr}
+                        h = hashlib.sha1(json.dumps([name, split, args], sort_keys=True, default=repr).encode()).hexdigest()[:12]
+                        rp = os.path.join(ROOT, 'replays', f'{pid}_{name}_{h}.json')
+                        json.dump(body, open(rp, 'w'), indent=1, default=repr)
+                        violations.append({'replay': rp, 'harness': name, 'split': split, 'args': args, 'detail': nr.get('detail'), 'note': 'native run of a sample input fails although the symbolic analysis confirmed the split'})
+                    else:
+                        machinery.append(('sample input could not be executed natively', {'harness': name, 'split': split, 'args': args, 'native': nr}))
         # 5. vacuity: declared witnesses must have fired
         for name, H in hmod.HARNESSES.items():
             st = per_h[name]
@@ -256,6 +304,7 @@ def check_property(pid, tier, seed):
                 samples = hmod.samples(tier)
             except Exception as e:  # noqa
                 samples = [f'sample rendering failed: {e!r}']
+        samples = list(samples) + native_samples
         if not samples:
             samples = [{'harness': n, 'first_split': (hmod.HARNESSES[n].splits(tier) or [None])[0]} for n in per_h]
         functions = sorted(set().union(*[s['functions'] for s in per_h.values()])) if per_h else []
@@ -263,7 +312,7 @@ def check_property(pid, tier, seed):
             'property_id': pid, 'tier': tier, 'seed': seed, 'level': 'model_checking',
             'coverage': {
                 'states': max(tot_paths, 0), 'transitions': max(tot_solver, 0),
-                'traces_validated_against_impl': replayed + int(prep.get('validated', 0)) + len(known_open),
+                'traces_validated_against_impl': replayed + validated + int(prep.get('validated', 0)) + len(known_open),
                 'samples': samples,
                 'obligations': obligations, 'discharged': discharged,
                 'exhaustive': bool(obligations and discharged == obligations and not inconclusive and not machinery),
